@@ -5,6 +5,7 @@
 -/
 import VDriver.Util
 import VDriver.Json
+import VDriver.Fuzz
 import VDriver.Ident
 import VDriver.B64
 import VDriver.Limits
@@ -39,6 +40,7 @@ def dispatch (line : String) : String :=
   | [area, op] =>
     let r : Option String := match area with
       | "json" => JsonOps.handle op args
+      | "fuzz" => FuzzOps.handle op args
       | "ident" => IdentOps.handle op args
       | "b64" => B64Ops.handle op args
       | "limits" => LimitsOps.handle op args
